@@ -102,6 +102,7 @@ struct Exec {
 		T.tracked       = ET::tracked;
 		T.mpi           = Cfg::mpi;
 		T.ctor_default_inits = Cfg::default_init;
+		T.always_equal  = Cfg::always_equal;
 		T.pocca         = Cfg::pocca;
 		T.pocma         = Cfg::pocma;
 		T.pocs          = Cfg::pocs;
